@@ -33,6 +33,7 @@ import (
 	"os"
 	"path/filepath"
 	"runtime/debug"
+	"runtime/pprof"
 	"sort"
 	"strings"
 	"time"
@@ -461,19 +462,35 @@ func (w *c14World) observe() c14Obs {
 // the data from which the affected snaps are computed (conflict.go: checkChangeConflictExclusiveKinds,
 // isIrrelevantChange, CheckChangeConflictMany, changeIsSnapdDowngrade). Ready changes are skipped by all of them at
 // the first test, so they are left out; the status of an unready change is kept (a changed implementation might
-// look at it).
+// look at it). Of the kind only its class matters to that code (see c14KindClass).
 func (w *c14World) key() string {
-	o := w.observe()
-	var parts []string
-	for _, c := range o.Unready {
-		x := ""
-		if c.Exclusive {
-			x = "!"
-		}
-		parts = append(parts, fmt.Sprintf("%s%s/%s[%s|%s]", c.Kind, x, c.Status, strings.Join(c.Impl, ","), strings.Join(c.Own, ",")))
+	k, _, _ := w.statLocked()
+	return k
+}
+
+// c14KindClass: the only distinctions the conflict code makes between change kinds.
+func c14KindClass(kind string) string {
+	if c14ExclusiveKinds[kind] || c14ExemptKinds[kind] || kind == "refresh-snap" || kind == "revert-snap" {
+		return kind
 	}
+	return "other"
+}
+
+// c14KeyPart gives the key fragments of one unready change: full (with the change kind) and abstract (with the
+// class of the kind). States with one unready change are keyed with the full fragment, so that every ordered pair
+// of menu requests is run; states with two or more are keyed with the abstract one.
+func c14KeyPart(c c14ChgObs) (full, abstract, suffix string) {
+	x := ""
+	if c.Exclusive {
+		x = "!"
+	}
+	return c.Kind + x + "/", c14KindClass(c.Kind) + x + "/", "[" + strings.Join(c.Impl, ",") + "|" + strings.Join(c.Own, ",") + "]"
+}
+
+func c14JoinKey(parts []string, snapsDigest string) string {
+	parts = append([]string(nil), parts...)
 	sort.Strings(parts)
-	return strings.Join(parts, " + ") + " snaps:" + w.snapsDigest()
+	return strings.Join(parts, " + ") + " snaps:" + snapsDigest
 }
 
 func (w *c14World) rawSnaps() string {
@@ -1033,6 +1050,7 @@ type c14State struct {
 	Path     []c14Step
 	Key      string
 	Unready  []c14ChgStat // unready changes by harness index
+	Snaps    string       // digest of the snap records (part of the key)
 	Requests int
 	Leaf     bool
 }
@@ -1040,6 +1058,48 @@ type c14State struct {
 type c14ChgStat struct {
 	Idx    int
 	Status string
+	Tasks  int
+	Full   string // key fragment before the status: with the change kind / with the class of the kind
+	Abs    string
+	Suffix string // key fragment after the status
+}
+
+func c14StateKey(l []c14ChgStat, snaps string) string {
+	var parts []string
+	for _, u := range l {
+		pre := u.Full
+		if len(l) >= 2 {
+			pre = u.Abs
+		}
+		parts = append(parts, pre+u.Status+u.Suffix)
+	}
+	return c14JoinKey(parts, snaps)
+}
+
+// predict computes the key of the state an event leads to ("" if not predictable): an event rewrites the task
+// statuses of one change and nothing else. Used only to skip replaying event edges that lead to known states;
+// every replayed event is compared with its prediction.
+func (st *c14State) predict(idx int, to string) string {
+	var l []c14ChgStat
+	for _, u := range st.Unready {
+		if u.Idx == idx {
+			switch to {
+			case "doing":
+				u.Status = "Doing"
+			case "undoing":
+				u.Status = "Undoing"
+				if u.Tasks == 1 {
+					u.Status = "Abort"
+				}
+			case "done", "error":
+				continue
+			default:
+				return ""
+			}
+		}
+		l = append(l, u)
+	}
+	return c14StateKey(l, st.Snaps)
 }
 
 type c14Explorer struct {
@@ -1052,6 +1112,26 @@ type c14Explorer struct {
 	reported map[string]bool
 	count    bool // false while a worker other than worker 0 runs the part every worker runs
 	mmFile   string
+	stopFile string // created by the first worker that confirms a violation: the others stop at their next state
+	capped    bool
+	completed int
+}
+
+// halt reports (and records) that the worker must stop: soft budget used up, or a violation confirmed somewhere.
+func (x *c14Explorer) halt(where string) bool {
+	r := x.r
+	if x.capped {
+		return true
+	}
+	if r.TimeUp() {
+		x.capped = true
+		r.Cap("time", fmt.Sprintf("worker stopped in %s; request sequences of length <= %d fully explored by this worker", where, x.completed))
+	} else if _, err := os.Stat(x.stopFile); err == nil && x.stopFile != "" {
+		// shortest counterexamples first: once a violation is confirmed nothing deeper is explored
+		x.capped = true
+		r.Cap("violation-found", fmt.Sprintf("a violation was confirmed; worker stopped in %s", where))
+	}
+	return x.capped
 }
 
 // run replays path on a fresh fixture and returns the world (to be closed by the caller) and the last outcome.
@@ -1064,17 +1144,32 @@ func (x *c14Explorer) run(path []c14Step) (*c14World, c14Outcome) {
 	return w, out
 }
 
-func (w *c14World) stat() (key string, unready []c14ChgStat) {
+func (w *c14World) stat() (key string, unready []c14ChgStat, snaps string) {
 	w.st.Lock()
 	defer w.st.Unlock()
-	key = w.key()
-	for i, c := range w.changes {
-		chg := w.st.Change(c.ID)
-		if chg != nil && !chg.IsReady() {
-			unready = append(unready, c14ChgStat{Idx: i, Status: chg.Status().String()})
-		}
+	return w.statLocked()
+}
+
+func (w *c14World) statLocked() (key string, unready []c14ChgStat, snaps string) {
+	o := w.observe()
+	byID := map[string]c14ChgObs{}
+	for _, c := range o.Unready {
+		byID[c.ID] = c
 	}
-	return key, unready
+	for i, c := range w.changes {
+		co, ok := byID[c.ID]
+		if !ok {
+			continue
+		}
+		delete(byID, c.ID)
+		full, abs, suf := c14KeyPart(co)
+		unready = append(unready, c14ChgStat{Idx: i, Status: co.Status, Tasks: co.Tasks, Full: full, Abs: abs, Suffix: suf})
+	}
+	if len(byID) > 0 {
+		eng.HarnessError("unready changes the harness did not create: %v", byID)
+	}
+	snaps = w.snapsDigest()
+	return c14StateKey(unready, snaps), unready, snaps
 }
 
 func c14Extend(p []c14Step, s c14Step) []c14Step {
@@ -1090,16 +1185,16 @@ func (x *c14Explorer) step(from *c14State, s c14Step) (*c14State, c14Outcome) {
 	for _, ps := range from.Path {
 		w.apply(ps)
 	}
-	if k, _ := w.stat(); k != from.Key {
+	if k, _, _ := w.stat(); k != from.Key {
 		// replaying a prefix gave another state: the machinery is at fault, never a violation
 		r.Add("replay_divergences", 1)
 		r.Info("replay_divergence", map[string]string{"path": c14PathString(from.Path), "expected": from.Key, "got": k})
 	}
 	out := w.apply(s)
-	key, unready := w.stat()
+	key, unready, snapsDigest := w.stat()
 	nreq := w.requests
 	w.close()
-	ns := &c14State{Path: np, Key: key, Unready: unready, Requests: from.Requests}
+	ns := &c14State{Path: np, Key: key, Unready: unready, Snaps: snapsDigest, Requests: from.Requests}
 	if s.K == "req" {
 		ns.Requests++
 		ns.Leaf = x.menu[s.Op].Leaf
@@ -1166,6 +1261,9 @@ func (x *c14Explorer) step(from *c14State, s c14Step) (*c14State, c14Outcome) {
 			continue
 		}
 		x.reported[p.Key] = true
+		if x.stopFile != "" {
+			os.WriteFile(x.stopFile, []byte(p.Key+"\n"), 0644)
+		}
 		o := out
 		r.Violation(p.Key, p.Msg+" [path: "+c14PathString(np)+"]", c14Case{Path: np, Text: c14PathString(np), Outcome: &o})
 	}
@@ -1199,12 +1297,26 @@ func (x *c14Explorer) closure(l []*c14State) []*c14State {
 		if st.Leaf {
 			continue
 		}
+		if x.completed >= 1 && x.halt("event closure") {
+			break
+		}
 		for _, u := range st.Unready {
 			for _, to := range x.events {
 				if !c14EventEnabled(u.Status, to) {
 					continue
 				}
+				pk := st.predict(u.Idx, to)
+				if pk != "" && x.seen[pk] {
+					if x.count {
+						x.r.Add("event_edges_to_known_states_not_replayed", 1)
+					}
+					continue
+				}
 				ns, _ := x.step(st, c14Step{K: "ev", Chg: u.Idx, To: to})
+				if pk != "" && pk != ns.Key {
+					x.r.Add("event_predictions_wrong", 1)
+					x.noteMismatch(fmt.Sprintf("event %s(#%d) after [%s]: predicted %q, got %q", to, u.Idx, c14PathString(st.Path), pk, ns.Key))
+				}
 				if x.newState(ns) {
 					l = append(l, ns)
 				}
@@ -1226,7 +1338,7 @@ func (x *c14Explorer) expand(st *c14State) []*c14State {
 	return next
 }
 
-const c14Rule = "breadth-first over request sequences up to the bound, every request of the menu in every state, progress events (half done / being undone / [waiting] / finished / failed, on any unready change) between requests without counting towards the bound; successors by replay on a fresh fixture; states deduplicated on (kind, status, affected snaps by both decodings, exclusive?) of the unready changes + snap records; non-trivial = requests issued while at least one change is unready, or with a stale-record callback"
+const c14Rule = "breadth-first over request sequences up to the bound, every request of the menu in every state, progress events (half done / being undone / [waiting] / finished / failed, on any unready change) between requests without counting towards the bound; successors by replay on a fresh fixture; states deduplicated on (kind [class of the kind when two or more changes are unready], status, affected snaps by both decodings, exclusive?) of the unready changes + snap records (dedup per worker process); non-trivial = requests issued while at least one change is unready, or with a stale-record callback"
 
 func (s *verifC14Suite) TestVerifC14(c *C) {
 	r := eng.Start("C14", "model_checking", 240*time.Second, 14*time.Minute)
@@ -1265,7 +1377,7 @@ func (s *verifC14Suite) TestVerifC14(c *C) {
 		w := c14New(c, menu)
 		for i, s := range cas.Path {
 			out := w.apply(s)
-			k, _ := w.stat()
+			k, _, _ := w.stat()
 			fmt.Printf("step %d %-40s expect=%-18s got=%-14s %s\n        state: %s\n", i+1, s, out.Expect, out.Got, out.Err, k)
 			if out.Mismatch != "" {
 				fmt.Printf("        MODEL-MISMATCH: %s\n", out.Mismatch)
@@ -1284,11 +1396,15 @@ func (s *verifC14Suite) TestVerifC14(c *C) {
 	}
 
 	if os.Getenv("VERIF_C14_BENCH") != "" { // calibration aid: cost of a fixture and of a request
+		pf, _ := os.Create(filepath.Join(eng.WorkDir(), "c14.prof"))
+		pprof.StartCPUProfile(pf)
 		t0 := time.Now()
 		for i := 0; i < 100; i++ {
 			w := c14New(c, menu)
 			w.close()
 		}
+		pprof.StopCPUProfile()
+		pf.Close()
 		t1 := time.Now()
 		for i := 0; i < 100; i++ {
 			w := c14New(c, menu)
@@ -1316,12 +1432,13 @@ func (s *verifC14Suite) TestVerifC14(c *C) {
 		for _, f := range old {
 			os.Remove(f)
 		}
+		os.Remove(filepath.Join(mmDir, "violation-found"))
 	}
 	if r.Sharded(16) {
 		if n := r.Count("replay_divergences"); n > 0 {
 			eng.HarnessError("%d replays of a path prefix did not reproduce the recorded state", n)
 		}
-		if n := r.Count("model_mismatches"); n > 0 {
+		if n := r.Count("model_mismatches") + r.Count("event_predictions_wrong"); n > 0 {
 			files, _ := filepath.Glob(filepath.Join(mmDir, "mismatch-*.txt"))
 			for _, f := range files {
 				b, _ := os.ReadFile(f)
@@ -1333,6 +1450,7 @@ func (s *verifC14Suite) TestVerifC14(c *C) {
 	}
 	shard, _ := r.ShardIndex()
 	x.mmFile = filepath.Join(mmDir, fmt.Sprintf("mismatch-%d.txt", shard))
+	x.stopFile = filepath.Join(mmDir, "violation-found")
 	// the part every worker runs is counted by worker 0 only
 	x.count = shard == 0
 
@@ -1340,7 +1458,7 @@ func (s *verifC14Suite) TestVerifC14(c *C) {
 	idle := &c14State{}
 	{
 		w := c14New(c, menu)
-		idle.Key, _ = w.stat()
+		idle.Key, _, idle.Snaps = w.stat()
 		w.close()
 	}
 	x.newState(idle)
@@ -1389,18 +1507,8 @@ func (s *verifC14Suite) TestVerifC14(c *C) {
 		}
 		item++
 	}
-	completed := 1
-	capped := false
-	timeUp := func(where string) bool {
-		if capped {
-			return true
-		}
-		if r.TimeUp() {
-			capped = true
-			r.Cap("time", fmt.Sprintf("worker stopped in %s; request sequences of length <= %d fully explored by this worker", where, completed))
-		}
-		return capped
-	}
+	x.completed = 1
+	timeUp := x.halt
 	// the other roots: one request level from each (what they accept joins the frontier at level 1)
 	for _, st := range myRoots {
 		if timeUp("roots") {
@@ -1409,7 +1517,7 @@ func (s *verifC14Suite) TestVerifC14(c *C) {
 		more := x.closure(x.expand(st))
 		frontier = append(frontier, more...)
 	}
-	for d := 2; d <= depth && !capped; d++ {
+	for d := 2; d <= depth && !x.capped; d++ {
 		var next []*c14State
 		for _, st := range frontier {
 			if st.Leaf {
@@ -1420,16 +1528,19 @@ func (s *verifC14Suite) TestVerifC14(c *C) {
 			}
 			next = append(next, x.expand(st)...)
 		}
-		if capped {
+		if x.capped {
 			break
 		}
-		completed = d
+		x.completed = d
 		if d < depth {
 			next = x.closure(next)
 		}
 		frontier = next
 	}
 	r.Add("fixtures_built", c14Fixtures)
-	r.Max("max_request_level_completed", int64(completed))
+	r.Add("workers_total", 1)
+	if !x.capped {
+		r.Add("workers_completed_all_levels", 1)
+	}
 	c14Finish(r, c14Rule)
 }
